@@ -244,6 +244,8 @@ def _run_sim(sh, rec):
     for k in range(nobj):
         shape = util.shape2d(rng, 6, 28) if d == 2 else util.shape3d(rng, 6, 14)
         nu, dx_t, cfl = _draw_params(rng, d, real_t)
+        if kind.startswith("passive") and k % 4 == 1:
+            dx_t = float(rng.uniform(1.3, 4.0))  # dx > 1: a step that scales like nu dt/dx instead of nu dt/dx^2 overshoots
         xr = dx_t * shape[-1]
         cfg = {"kind": "passive" if kind.startswith("passive") else kind, "shape": shape, "x_range": xr, "nu": nu, "cfl": cfl,
                "dtype": sh["dtype"], "threads": 2}
